@@ -50,7 +50,7 @@ NAMES = Rewrite('R6', r'self\.func_writer\[\*arm_block\] =\s*format!\("switch_ar
 REFVEC = Rewrite('R4', r'in &arm_blocks \{', 'in arm_blocks {', count=1, why='`arm_blocks` is already a reference in the lifted function')
 u.extract(F, "impl FunctionCompiler<'_>::fn compile_expr_with_args", key='switch_dispatch', wrap=('impl FunctionCompiler {', '}'),
           rewrites=[NAMES, REFVEC], desugar_for={0: ('ai', 'ref')},
-          lift=dict(start_at='let discrim_val = self.builder.ins().load(', end_before='\n\n                    self.builder.switch_to_block(default_block);',
+          lift=dict(start_at='let discrim_val =', end_before='\n\n                    self.builder.switch_to_block(default_block);',
                     sig='''fn switch_dispatch(&mut self, sum_ty: Intern<Ty>, scrutinee_val: Value, enum_layout: EnumLayout,
                            arm_blocks: &Vec<(Intern<Ty>, Block, hir::SwitchArm)>, default_block: Block)''',
                     why='the tagged branch of the Expr::Switch arm of compile_expr_with_args, from the tag load to the emission of the jump table, lifted into a method'),
@@ -58,13 +58,16 @@ u.extract(F, "impl FunctionCompiler<'_>::fn compile_expr_with_args", key='switch
     requires
         has_enum_layout(*sum_ty.0), enum_layout.view() == tenum(*sum_ty.0), tenum(*sum_ty.0).discriminant_offset < 0x4000_0000,
         scrutinee_val.den@ is Addr, arms_ok(*sum_ty.0, arm_blocks@),
+        // the tag is a byte (an unsigned 8-bit integer)
+        forall|k: int| is_int_of(#[trigger] load_den(ptr_base(scrutinee_val), ptr_off(scrutinee_val) + tenum(*sum_ty.0).discriminant_offset, 8, k), 8),
     ensures
         // the value switched on is the byte at the discriminant offset of the scrutinee, and the
         // table sends the discriminant of every arm's variant to that arm's block, everything
         // else to the default block
         exists|b_mid: FunctionBuilder, tag: Den| #[trigger] dispatched(b_mid, final(self).builder, tag,
                 expected_table(*sum_ty.0, arm_blocks@, arm_blocks@.len() as int), default_block.id as int)
-            && tag == load_den(ptr_base(scrutinee_val), ptr_off(scrutinee_val) + tenum(*sum_ty.0).discriminant_offset, 8, old(self).builder.log@.len() as int),
+            // ... read as an UNSIGNED number (the table is keyed by unsigned discriminants)
+            && tag is Int && tag->Int_val == load_den(ptr_base(scrutinee_val), ptr_off(scrutinee_val) + tenum(*sum_ty.0).discriminant_offset, 8, old(self).builder.log@.len() as int)->Int_val,
 ''',
           inserts=[('switch.emit(', 'before', 'let ghost b_mid = self.builder; let ghost tbl = switch.table@; '),
                    ('@body_end', 'after', ' proof { assert(dispatched(b_mid, self.builder, discrim_val.den@, tbl, default_block.id as int)); } ')],
@@ -76,6 +79,12 @@ u.extract(F, "impl FunctionCompiler<'_>::fn compile_expr_with_args", key='switch
 '''})
 
 MUTANTS = [
+    (F, '''                    let discrim_val = self.builder.ins().load(
+                        types::I8,''', '''                    let discrim_val = self.builder.ins().sload8(
+                        types::I32,''', 'violation'),
+    (F, '''                    let discrim_val = self.builder.ins().load(
+                        types::I8,''', '''                    let discrim_val = self.builder.ins().uload8(
+                        types::I32,''', 'ok'),
     (F, 'switch.set_entry(discrim as u128, *arm_block);', 'switch.set_entry(discrim as u128 + 1, *arm_block);', 'violation'),
     (F, 'switch.emit(&mut self.builder, discrim_val, default_block);', 'switch.emit(&mut self.builder, scrutinee_val, default_block);', 'violation'),
     (F, '''                        scrutinee_val,
